@@ -95,6 +95,8 @@ type SpecFile struct {
 	Pools       []*PoolInv
 	UFuns       map[string]*UFun
 	GhostFields map[string]string // "Type.field" -> sort
+	GhostVars   map[string]string // pkg.name -> sort (ghost variables, arbitrary at function entry)
+	Guarded     map[string]string // "pkg.Type.field" -> lock name: accesses need the lock unless the object is fresh
 }
 
 // ---------------------------------------------------------------------------
@@ -501,7 +503,7 @@ func splitTopComma(s string) []string {
 }
 
 func loadSpecFiles(root string) (*SpecFile, []string, error) {
-	sf := &SpecFile{Contracts: map[string]*Contract{}, Specs: map[string]*SpecFunc{}, UFuns: map[string]*UFun{}, GhostFields: map[string]string{}}
+	sf := &SpecFile{Contracts: map[string]*Contract{}, Specs: map[string]*SpecFunc{}, UFuns: map[string]*UFun{}, GhostFields: map[string]string{}, GhostVars: map[string]string{}, Guarded: map[string]string{}}
 	var files []string
 	err := filepath.Walk(root, func(path string, info os.FileInfo, err error) error {
 		if err != nil {
@@ -678,6 +680,25 @@ func loadSpecFiles(root string) (*SpecFile, []string, error) {
 					uf.Ret = SBool
 				}
 				sf.UFuns[uf.Name] = uf
+				cur = nil
+			case "guarded":
+				// guarded Type.field by lock
+				parts := strings.Fields(rest)
+				if len(parts) != 3 || parts[1] != "by" {
+					return nil, nil, fmt.Errorf("%s: bad guarded clause", where)
+				}
+				sf.Guarded[pkg+"."+parts[0]] = parts[2]
+				cur = nil
+			case "ghostvar":
+				parts := strings.Fields(rest)
+				if len(parts) != 2 {
+					return nil, nil, fmt.Errorf("%s: bad ghostvar", where)
+				}
+				sort := SInt
+				if parts[1] == "bool" {
+					sort = SBool
+				}
+				sf.GhostVars[parts[0]] = sort
 				cur = nil
 			case "ghostfield":
 				parts := strings.Fields(rest)
